@@ -64,6 +64,7 @@ def run(ctx):
             reqs.append(dict(p='C18', op='rot', rot=rot, H=H, W=W))
             impl.append((inp, [int(R.shape[0]), int(R.shape[1])], cells))
     ridge_oracle(ctx, rng, eng)
+    detect_oracle(ctx, rng, eng)
     if ctx.driver_ok:
         rep = common.Driver(ctx).batch(reqs)
         for r, (inp, shape, cells) in zip(rep, impl):
@@ -144,6 +145,109 @@ def ridge_oracle(ctx, rng, eng):
             ctx.nontriv(inp)
         ctx.sample(dict(inp, lines=len(b_list)), limit=3)
         ctx.count('ridge_maps')
+
+
+class StubNet:
+    def __init__(self, maps, ds):
+        self.maps, self.ds = maps, ds
+
+    def get_maps_with_optimal_resolution(self, image):
+        return self.maps.copy(), self.ds
+
+
+def detect_oracle(ctx, rng, eng):
+    """The real LayoutEngine.detect (parse -> clustering -> vertical ordering -> rotation back) behind a stub network:
+    pages with 1-3 text columns whose ridges may start on exactly the same row with different heights; rot 0..3 on
+    non-square pages.  Each returned line must carry the heights and outline of ITS ridge, in original-image coordinates."""
+    import contextlib, io
+    for it in range(25 if ctx.quick() else 300):
+        ds = rng.choice([1, 2, 4])
+        rot = rng.choice([0, 0, 1, 2, 3])
+        ncol = rng.choice([1, 2, 2, 3])
+        colw = rng.randrange(50, 90)
+        Wm = ncol * (colw + 25) + 10
+        Hm = rng.randrange(70, 150)
+        if Hm == Wm:
+            Hm += 7
+        maps = np.zeros((Hm, Wm, 5), dtype=np.float32)
+        aligned = rng.random() < 0.6        # columns share their row positions (ties in the vertical order)
+        rows = []
+        y = rng.randrange(14, 22)
+        while y < Hm - 14:
+            rows.append(y)
+            y += rng.randrange(18, 30)
+        ridges = []
+        for c in range(ncol):
+            x0 = 8 + c * (colw + 25)
+            ys = rows if aligned else [r + rng.randrange(0, 4) for r in rows]
+            # larger type on the left or on the right
+            up = rng.choice([3.0, 5.0, 8.0, 11.0])
+            down = rng.choice([1.0, 2.0, 4.0])
+            for yy in ys:
+                if yy >= Hm - 13 or rng.random() < 0.15:
+                    continue
+                xa, xb = x0 + rng.randrange(0, 4), x0 + colw - rng.randrange(0, 10)
+                maps[yy, xa:xb + 1, 2] = 1.0
+                maps[yy, xa:xb + 1, 0] = up
+                maps[yy, xa:xb + 1, 1] = down
+                ridges.append(dict(x0=xa, x1=xb, y=yy, up=up, down=down))
+        if not ridges:
+            continue
+        # the image handed to detect() is the ORIGINAL page; detect rotates it itself
+        Hr, Wr = Hm * ds, Wm * ds                  # rotated-image size
+        Ho, Wo = (Hr, Wr) if rot % 2 == 0 else (Wr, Hr)
+        image = np.zeros((Ho, Wo, 3), dtype=np.uint8)
+        idx = np.arange(Ho * Wo).reshape(Ho, Wo)
+        R = np.rot90(idx, k=rot)
+
+        def to_orig(x, y):                          # rotated-image pixel -> original-image (x, y)
+            src = int(R[int(min(max(round(y), 0), Hr - 1)), int(min(max(round(x), 0), Wr - 1))])
+            sr, sc = divmod(src, Wo)
+            return sc, sr
+        eng.parsenet = StubNet(maps, ds)
+        inp = dict(map_shape=[Hm, Wm], downsample=ds, rot=rot, aligned_columns=aligned, ridges=ridges)
+        ctx.evaluations += 1
+        ctx.count('detect:rot=%d' % rot)
+        try:
+            with contextlib.redirect_stdout(io.StringIO()):
+                p_list, b_list, h_list, t_list = eng.detect(image, rot=rot)
+        except Exception as e:
+            ctx.violation('detect-raises:' + type(e).__name__, 'LayoutEngine.detect raised %r' % (e,), inp)
+            continue
+        if not (len(b_list) == len(h_list) == len(t_list) == len(ridges)):
+            ctx.violation('detect:ridge-count', 'detect: not exactly one text line (baseline, heights, outline) per ridge', inp,
+                          [len(b_list), len(h_list), len(t_list)], len(ridges))
+            continue
+        used = set()
+        for b, h, t in zip(b_list, h_list, t_list):
+            b = np.asarray(b, dtype=float)
+            # the ridge this baseline belongs to: nearest start/end points after mapping to the original image
+            best, bd = None, None
+            for ri, r in enumerate(ridges):
+                e0 = to_orig(ds * r['x0'], ds * r['y'])
+                e1 = to_orig(ds * r['x1'], ds * r['y'])
+                d = min(max(np.abs(b[0] - e0).max(), np.abs(b[-1] - e1).max()), max(np.abs(b[0] - e1).max(), np.abs(b[-1] - e0).max()))
+                if bd is None or d < bd:
+                    best, bd = ri, d
+            r = ridges[best]
+            if bd > 4 * ds + 1 or best in used:
+                ctx.violation('detect:position:rot=%d' % rot, 'detect: a returned baseline does not match a ridge in original-image coordinates', inp,
+                              [b[0].tolist(), b[-1].tolist()], [to_orig(ds * r['x0'], ds * r['y']), to_orig(ds * r['x1'], ds * r['y'])])
+                continue
+            used.add(best)
+            if abs(h[0] - ds * r['up']) > 0.51 * ds + 1e-6 or abs(h[1] - ds * r['down']) > 0.51 * ds + 1e-6:
+                ctx.violation('detect:heights', "detect: the heights returned with a baseline are not its ridge's heights (scaled by the down-sampling factor)",
+                              inp, [float(h[0]), float(h[1])], [ds * r['up'], ds * r['down']])
+            # the outline belongs to the same ridge: its extent across the baseline is up + down (within 2 px + rounding)
+            t = np.asarray(t, dtype=float)
+            horizontal = abs(b[-1, 0] - b[0, 0]) >= abs(b[-1, 1] - b[0, 1])
+            ext = (t[:, 1].max() - t[:, 1].min()) if horizontal else (t[:, 0].max() - t[:, 0].min())
+            if abs(ext - ds * (r['up'] + r['down'])) > 2 * ds + 2:
+                ctx.violation('detect:outline', "detect: the outline returned with a baseline is not its ridge's outline", inp,
+                              float(ext), ds * (r['up'] + r['down']))
+        if len(ridges) >= 2:
+            ctx.nontriv(inp)
+        ctx.count('detect_pages')
 
 
 def replay(data):
